@@ -551,4 +551,75 @@ theorem autoLabel_eq_pre (sk : Skel) (n : SNode) :
     Gen.Swc.lblUndefined Gen.Swc.lblPost Gen.Swc.lblPre
   simp; split <;> (try split) <;> (try split) <;> (try split) <;> (try split) <;> simp_all <;> omega
 
+/-- The sequential label assignments of the source, in the order and with the gating the translator found, compute `autoLabel`. -/
+theorem labelsAsWritten_gen (sk : Skel) (ex : Bool) (n : SNode) :
+    labelsAsWritten Gen.Swc.labelRules sk ex n = autoLabel sk ex n := by
+  unfold labelsAsWritten autoLabel Gen.Swc.labelRules lblSoma lblBranch lblEnd lblUndefined lblPost lblPre Gen.Swc.lblSoma
+    Gen.Swc.lblBranch Gen.Swc.lblEnd Gen.Swc.lblUndefined Gen.Swc.lblPost Gen.Swc.lblPre
+  simp only [List.foldl_cons, List.foldl_nil, selects]
+  cases ex <;> simp <;> (repeat' split) <;> simp_all
+
+/-! ### arbitrary (user supplied) headers -/
+
+theorem isHeader_rowLine_none {l : Line} (h : isHeader l = true) : rowLine? l = none := by
+  cases l <;> simp_all [isHeader, rowLine?]
+
+theorem filterMap_dropWhile_isHeader (ls : List Line) : (ls.dropWhile isHeader).filterMap rowLine? = ls.filterMap rowLine? := by
+  induction ls with
+  | nil => rfl
+  | cons a ls ih =>
+    simp only [List.dropWhile_cons]
+    cases h : isHeader a with
+    | true => simp [isHeader_rowLine_none h, ih]
+    | false => simp
+
+/-- The reader's data rows are simply all row lines of the file: header, comment and blank lines never contribute. -/
+theorem dataRows_eq_filterMap (ls : List Line) : dataRows ls = ls.filterMap rowLine? := filterMap_dropWhile_isHeader ls
+
+theorem filterMap_rowLine_noRows (hl : List Line) (h : noRows hl = true) : hl.filterMap rowLine? = [] := by
+  rw [List.filterMap_eq_nil_iff]
+  intro l hl'
+  have := List.all_eq_true.mp h l hl'
+  simpa using this
+
+theorem dataRows_custom (hl : List Line) (rs : List SwcRow) (h : noRows hl = true) :
+    dataRows (hl ++ rs.map renderRow) = rs.map rowToks := by
+  rw [dataRows_eq_filterMap, List.filterMap_append, filterMap_rowLine_noRows hl h, filterMap_rowLine_render]
+  rfl
+
+theorem headerOf_custom (hl : List Line) (rs : List SwcRow) : headerOf (hl ++ rs.map renderRow) = headerOf hl := by
+  unfold headerOf
+  induction hl with
+  | nil =>
+    cases rs with
+    | nil => rfl
+    | cons r rs => simp [renderRow, isHeader]
+  | cons a hl ih =>
+    simp only [List.cons_append, List.takeWhile_cons]
+    split
+    · rw [ih]
+    · rfl
+
+theorem parseSwc_custom (hl : List Line) (rs : List SwcRow) (h : noRows hl = true) :
+    parseSwc (hl ++ rs.map renderRow) = some { props := metaOf hl, rows := rs } := by
+  unfold parseSwc metaOf
+  rw [dataRows_custom hl rs h, headerOf_custom, columnsOK_rowToks, if_pos rfl, List.map_map]
+  have : (parseRow ∘ rowToks) = some := by funext r; exact parseRow_rowToks r
+  rw [this, sanitiseRows_map_some]
+
+theorem noRows_headerLines (wm : WriteMeta) (op : Opts) (sk : Skel) : noRows (headerLines wm op sk) = true := by
+  unfold noRows
+  rw [List.all_eq_true]
+  intro l hl
+  rw [isHeader_rowLine_none (headerLines_isHeader wm op sk l hl)]
+  rfl
+
+theorem readBack_writeH (cfg : ReadCfg) (hd : Header) (op : Opts) (sk : Skel) (o : List SNode)
+    (h : noRows (headerFor hd op sk) = true) :
+    readBack cfg (writeH hd op sk o) =
+      some (ofFile cfg { props := metaOf (headerFor hd op sk), rows := finish (labelOf op sk) o }) := by
+  unfold readBack writeH
+  rw [parseSwc_custom _ _ h]
+  rfl
+
 end Navis.Swc
